@@ -2426,7 +2426,7 @@ class TLSConnection(TLSRecordLayer):
             tacks = None
 
         # Prepare a TACK Extension if requested
-        if clientHello.tack:
+        if clientHello.tack and tacks:
             tackExt = TackExtension.create(tacks, activationFlags)
         else:
             tackExt = None
